@@ -207,21 +207,21 @@ FAMILIES["wide"] = dict(
 
 # seeded random drivers (real code -> specification): long histories at larger scale, DESIGN.md 4.2
 DRIVES = {
-    "wide": dict(comps=["A", "B", "C", "R"], maxent=20, quick=dict(count=160, len=300), thorough=dict(count=3000, len=500)),
-    "rel2": dict(comps=["A", "R", "S"], maxent=14, quick=dict(count=160, len=250), thorough=dict(count=3000, len=400)),
-    "obs": dict(comps=["A", "B", "R"], maxent=8, extra=dict(observers=5, obsp=120), quick=dict(count=300, len=150), thorough=dict(count=6000, len=250)),
-    "obs2": dict(comps=["A", "R", "S"], maxent=8, extra=dict(observers=6, obsp=150), quick=dict(count=300, len=150), thorough=dict(count=6000, len=250)),
+    "wide": dict(comps=["A", "B", "C", "R"], maxent=20, extra=dict(grid=15), quick=dict(count=160, len=300), thorough=dict(count=3000, len=500)),
+    "rel2": dict(comps=["A", "R", "S"], maxent=14, extra=dict(grid=15), quick=dict(count=160, len=250), thorough=dict(count=3000, len=400)),
+    "obs": dict(comps=["A", "B", "R"], maxent=8, extra=dict(observers=5, obsp=120, grid=10), quick=dict(count=300, len=150), thorough=dict(count=6000, len=250)),
+    "obs2": dict(comps=["A", "R", "S"], maxent=8, extra=dict(observers=6, obsp=150, grid=10), quick=dict(count=300, len=150), thorough=dict(count=6000, len=250)),
     "lock": dict(comps=["A", "B", "R"], maxent=10, extra=dict(queries=6, observers=2), quick=dict(count=300, len=200), thorough=dict(count=6000, len=300)),
     "lock64": dict(comps=["A", "R"], maxent=6, extra=dict(queries=62), quick=dict(count=60, len=400), thorough=dict(count=1000, len=600)),
     "reset": dict(comps=["A", "B", "R"], maxent=10, extra=dict(observers=3, resetp=25, stats=True), quick=dict(count=300, len=200), thorough=dict(count=5000, len=300)),
     "reset2": dict(comps=["A", "R", "S"], maxent=8, extra=dict(observers=3, resetp=40, queries=2), quick=dict(count=200, len=200), thorough=dict(count=4000, len=300)),
     "arity": dict(comps=["A", "B", "C", "R", "S", "F1", "F2", "F3", "F4", "F5", "F6", "F7"], maxent=10,
-                  extra=dict(arity=True, typedobs=True, observers=3, queries=2),
+                  extra=dict(arity=True, grid=50, typedobs=True, observers=3, queries=2),
                   quick=dict(count=120, len=250), thorough=dict(count=3000, len=400)),
     "mem": dict(comps=["A", "P", "Q"], maxent=24, extra=dict(mem=True, gcstress=True, resetp=10), quick=dict(count=120, len=300), thorough=dict(count=2500, len=500)),
     "mem64": dict(comps=["P", "B", "Q"], maxent=150, extra=dict(mem=True, gcstress=True), quick=dict(count=40, len=900), thorough=dict(count=600, len=1500)),
     "big": dict(comps=["A", "B"], maxent=260, extra=dict(batchn=90, mem=True), quick=dict(count=30, len=250), thorough=dict(count=400, len=500)),
-    "plain": dict(comps=["A", "B", "C"], maxent=40, quick=dict(count=100, len=400), thorough=dict(count=1500, len=800)),
+    "plain": dict(comps=["A", "B", "C"], maxent=40, extra=dict(grid=15), quick=dict(count=100, len=400), thorough=dict(count=1500, len=800)),
 }
 
 # executor cells: the quantifiers the specification does not range over
@@ -244,7 +244,7 @@ PLANS = {
             ("drive:wide", ["typed1", "unsafe2", "exch8", "mapt42"]), ("drive:plain", ["typed11", "unsafe1"]),
             ("drive:big", ["typed1", "unsafe3"])],
     "C02": [("core", ["typed1", "unsafe1"]), ("rel", ["typed11", "unsafe1"]), ("drive:wide", ["typed1", "unsafe2"]),
-            ("drive:rel2", ["typed11", "unsafe1"])],
+            ("drive:rel2", ["typed11", "unsafe1"]), ("dump", ["typed1", "unsafe2"]), ("drive:reset", ["typed1", "unsafe2"])],
     "C03": [("core", ["typed1", "unsafe1", "typedfill"]), ("rel", ["typed1", "unsafe1", "typed11"]), ("cache", ["typed1"]),
             ("drive:wide", ["typed1", "unsafe2"]), ("drive:rel2", ["typed11", "unsafe1"]), ("drive:lock", ["typed1", "typed11", "unsafe2"])],
     "C04": [("rel", ["typed1", "unsafe1", "typed11", "unsafe2"]), ("drive:rel2", ["typed11", "unsafe1"]),
@@ -1150,7 +1150,8 @@ def driven_sources(ctx, binp, names, count, cell, extra):
         cfg.update(dr.get("extra", {}))
         cfg.update(extra)
         lp = os.path.join(d, "gen-%s.ndjson" % name)
-        p, dt = run([binp, "-drive", str(count), "-len", str(dr[ctx.tier]["len"]), "-out", lp, "-cfg", json.dumps(cfg)], 900)
+        cnt = count[name] if isinstance(count, dict) else count
+        p, dt = run([binp, "-drive", str(cnt), "-len", str(dr[ctx.tier]["len"]), "-out", lp, "-cfg", json.dumps(cfg)], 900)
         if p.returncode != 0:
             raise Inconclusive("driver failed:\n" + p.stdout[-1500:])
         out.append(("seq", lp + ".seqs", 1000, cfg))
@@ -1224,8 +1225,17 @@ def check_c20(ctx):
     return finish(ctx, "product traces of the four build configurations")
 
 
+MAP_METHODS = ["NewEntity", "NewEntityFn", "NewBatch", "NewBatchFn", "Get", "HasAll", "Add", "AddFn", "Set", "AddBatch", "AddBatchFn", "Remove",
+               "RemoveBatch", "GetRelation", "SetRelations", "SetRelationsBatch"]
+EX_METHODS = ["Add", "AddFn", "Remove", "Exchange", "ExchangeFn", "AddBatch", "AddBatchFn", "RemoveBatch", "ExchangeBatch", "ExchangeBatchFn"]
+FILTER_METHODS = ["Query", "QueryRel", "Batch", "BatchRel", "Register", "Unregister", "Relations"]
+# every generated API variant, down to the method (harness/arkx/cover.go counts the calls)
 REQUIRED_API = (["Map"] + ["Map%d" % i for i in range(1, 13)] + ["Exchange%d" % i for i in range(1, 9)] + ["Filter%d" % i for i in range(0, 9)]
-                + ["Observer", "Observer1", "Observer2", "Observer3", "Observer4"])
+                + ["Observer", "Observer1", "Observer2", "Observer3", "Observer4"]
+                + ["Map.%s" % m for m in MAP_METHODS if m != "NewBatch"]
+                + ["Map%d.%s" % (i, m) for i in range(1, 13) for m in MAP_METHODS]
+                + ["Exchange%d.%s" % (i, m) for i in range(1, 9) for m in EX_METHODS]
+                + ["Filter%d.%s" % (i, m) for i in range(1, 9) for m in FILTER_METHODS])
 
 
 def check_c14(ctx):
@@ -1245,7 +1255,8 @@ def check_c14(ctx):
             raise Inconclusive("design check of %s fails (%s); run the property's own check" % (fam, g["design_violation"]))
         keep = max(1, min(1000, int(1000 * (2500 if quick else 40000) / max(1, g["nseq"]))))
         sources.append(("seq", g["seqs"], keep, dict(comps=FAMILIES[fam]["exec"]["comps"], probes=4, seed=ctx.seed, typedobs=True)))
-    sources += driven_sources(ctx, b, ["arity", "wide", "rel2", "obs"], 30 if quick else 600, "typed11", dict(typedobs=True))
+    counts = dict(arity=160, wide=20, rel2=20, obs=20) if quick else dict(arity=4000, wide=400, rel2=400, obs=400)
+    sources += driven_sources(ctx, b, ["arity", "wide", "rel2", "obs"], counts, "typed11", dict(typedobs=True))
     for s_ in sources:
         for k in ("path", "caps", "relst", "perm", "fill", "mapt"):
             s_[-1].pop(k, None)
